@@ -70,11 +70,19 @@ def strat_trees(draw, tier):
                                           _prune(trees[0])]))
     keys = []
     pool = [[0x10, 0xf0], [0x20, 0xf0], [0x0, 0x0], [0xffff0000, 0xffff0000]]
+    if draw(st.integers(0, 2)) == 0:
+        # keys with bits set outside their mask (the repository's own tests
+        # use 0xDEAD / 0xBEEF): entries are one per key *and* mask as given,
+        # so keys that differ only in masked-out bits stay apart
+        pool = [[0x10, 0xf0], [0x13, 0xf0], [0x1c, 0xf0], [0x5, 0x0],
+                [0x0, 0x0], [0xdead, 0xbeef]]
     for i in range(n):
         keys.append(draw(st.sampled_from(pool[:max(1, (n + 1) // 2)] + pool)))
     return {"w": w, "h": h, "trees": trees, "keys": keys,
             # equal trees given as one and the same RoutingTree object
             "alias": draw(st.booleans()),
+            # hops that are instances of a subclass of RoutingTree
+            "subclass": draw(st.sampled_from([0, 0, 0, 1, 2])),
             # keys are usually allocated for every net of the application,
             # also for those that were not routed (yet)
             "unrouted_keys": draw(st.integers(0, 2))}
@@ -89,14 +97,36 @@ def _prune(t):
     return c
 
 
-def build_tree(node):
+_LABELLED = []
+
+
+def _labelled_class():
+    """A tree class of the program's own (a RoutingTree carrying a label)."""
+    if not _LABELLED:
+        from rig.place_and_route.routing_tree import RoutingTree
+
+        class LabelledTree(RoutingTree):
+            __slots__ = ["label"]
+
+            def __init__(self, chip, children=None, label=None):
+                super(LabelledTree, self).__init__(chip, children)
+                self.label = label
+        _LABELLED.append(LabelledTree)
+    return _LABELLED[0]
+
+
+def build_tree(node, sub=0, depth=0):
+    """sub: 0 = plain RoutingTree nodes, 1 = every node an instance of a
+    subclass, 2 = the nodes at odd depths only."""
     from rig.place_and_route.routing_tree import RoutingTree
     from rig.routing_table import Routes
-    t = RoutingTree(tuple(node["chip"]))
+    cls = _labelled_class() if sub == 1 or (sub == 2 and depth % 2) \
+        else RoutingTree
+    t = cls(tuple(node["chip"]))
     for r, c in node["children"]:
         route = None if r is None else Routes(r)
         if isinstance(c, dict):
-            t.children.append((route, build_tree(c)))
+            t.children.append((route, build_tree(c, sub, depth + 1)))
         else:
             t.children.append((route, object()))
     return t
@@ -122,7 +152,7 @@ def check_trees(case):
     for n, t in zip(nets, case["trees"]):
         k = canonical(t) if case.get("alias") else id(n)
         if k not in built:
-            built[k] = build_tree(t)
+            built[k] = build_tree(t, case.get("subclass", 0))
         routes[n] = built[k]
     keys = dict((n, tuple(k)) for n, k in zip(nets, case["keys"]))
     for i in range(case.get("unrouted_keys", 0)):
@@ -185,7 +215,9 @@ def check_trees(case):
             if any(o < 6 for o in outs) and any(o >= 6 for o in outs):
                 kinds.add("core+link")
     return {"nontrivial": "core+link" in kinds or shared,
-            "classes": sorted(kinds) + (["shared-key"] if shared else [])}
+            "classes": sorted(kinds) + (["shared-key"] if shared else []) +
+            (["key-outside-mask"] if any(k & ~m for k, m in case["keys"])
+             else [])}
 
 
 # ------------------------------------------- (a') a route of a thousand hops
